@@ -1098,7 +1098,9 @@ Section Programs.
     apply p_exists_spec in Ex as (Hd & _ & _ & Hq). specialize (Hq I). cbn [t_dir t0] in Hd, Hq.
     subst ex.
     destruct (user_exists d u) as [cur| |] eqn:Hex; try (split; [reflexivity|exact Hd]).
-    destruct (Bool.eqb cur adm); [split; [reflexivity|exact Hd]|].
+    destruct (Bool.eqb cur adm).
+    { repeat (rewrite tick_eq; cbv beta iota). cbn [terr t_dir bump emit].
+      split; [reflexivity|exact Hd]. }
     repeat (rewrite tick_eq; cbv beta iota). cbn [terr t_dir bump]. rewrite Hd.
     destruct (dlookup (u ++ ext_of cur) d) as [n|];
       [|split; [reflexivity|cbn [t_dir bump]; exact Hd]].
@@ -1222,7 +1224,9 @@ Section Programs.
     destruct (p_exists (Some ft) u (t0 d)) as [ex s1] eqn:Ex.
     apply p_exists_spec in Ex as (Hd & _ & _ & _). cbn [t_dir t0] in Hd.
     destruct ex as [cur| |]; try (intros H _; now injection H as <-).
-    destruct (Bool.eqb cur adm); [discriminate|].
+    destruct (Bool.eqb cur adm).
+    { repeat (rewrite tick_eq; cbv beta iota).
+      terr_cases; intros H _; try discriminate; injection H as <-; cbn [t_dir bump]; exact Hd. }
     repeat (rewrite tick_eq; cbv beta iota). cbn [t_dir bump].
     destruct (terr (Some ft) KRename (bump KStat s1)) as [e3|];
       [intros H _; now injection H as <-|].
@@ -1367,7 +1371,10 @@ Section Programs.
       apply p_exists_spec in Ex as (_ & Hev & _). cbn [t_ev t0] in Hev.
       assert (H1 : Forall (event_allowed u) (t_ev s1)) by (rewrite Hev; constructor).
       destruct ex as [cur| |]; try exact H1.
-      destruct (Bool.eqb cur adm); [exact H1|].
+      destruct (Bool.eqb cur adm).
+      { repeat (rewrite tick_eq; cbv beta iota).
+        terr_cases; cbn [snd t_ev bump emit]; try exact H1.
+        apply Forall_cons; [exact I|exact H1]. }
       repeat (rewrite tick_eq; cbv beta iota).
       destruct (terr ft KRename (bump KStat s1)) as [e3|]; [exact H1|].
       destruct (dlookup _ _) as [n|]; [|exact H1].
